@@ -1313,7 +1313,112 @@ pub fn extension_blocks() -> Vec<Vec<u8>> {
     blocks.push(vec![0x00, 0x2b, 0x00, 0x02, 0x03, 0x04, 0x00, 0x33, 0x00, 0x02, 0x00, 0x1d]);
     blocks.push(vec![0x00, 0x33, 0x00, 0x02, 0x00, 0x1d, 0x00, 0x2b, 0x00, 0x02, 0x7f, 0x1c]);
     blocks.push(vec![0x00, 0x2b, 0x00, 0x03, 0x02, 0x03, 0x04]);
+    // extensions that carry protocol meaning, with real contents: alone, in every ordered pair and triple
+    let sem = semantic_extensions();
+    for a in &sem {
+        blocks.push(a.1.clone());
+    }
+    let core: Vec<&Vec<u8>> = sem.iter().filter(|e| e.2).map(|e| &e.1).collect();
+    for (i, a) in core.iter().enumerate() {
+        for (j, b) in core.iter().enumerate() {
+            if i == j {
+                continue;
+            }
+            blocks.push([&a[..], &b[..]].concat());
+            for (k, c) in core.iter().enumerate() {
+                if k != i && k != j {
+                    blocks.push([&a[..], &b[..], &c[..]].concat());
+                }
+            }
+        }
+    }
+    // supported_versions with each version family, client and server form
+    for v in [0x0304u16, 0x0303, 0x0301, 0xfefc, 0xfefd, 0xfeff, 0x7f1c, 0x7f12, 0x0a0a, 0xffff] {
+        blocks.push(vec![0x00, 0x2b, 0x00, 0x03, 0x02, (v >> 8) as u8, v as u8]);
+        blocks.push(vec![0x00, 0x2b, 0x00, 0x05, 0x04, 0x03, 0x03, (v >> 8) as u8, v as u8]);
+        blocks.push(vec![0x00, 0x2b, 0x00, 0x02, (v >> 8) as u8, v as u8]);
+    }
+    // whole hello profiles as deployed stacks send them
+    let profiles = hello_profiles();
+    blocks.extend(profiles.iter().cloned());
+    // a block that already carries a length prefix of its own (pasted one level too deep)
+    let inner: Vec<Vec<u8>> = profiles.iter().cloned().chain(exts.iter().take(40).cloned()).collect();
+    for b in inner {
+        let n = b.len();
+        if n < 256 {
+            blocks.push([&[n as u8][..], &b[..]].concat());
+        }
+        blocks.push([&[(n >> 8) as u8, n as u8][..], &b[..]].concat());
+        blocks.push([&[0, (n >> 8) as u8, n as u8][..], &b[..]].concat());
+    }
     blocks
+}
+
+fn ext_bytes(t: u16, c: &[u8]) -> Vec<u8> {
+    let mut v = vec![(t >> 8) as u8, t as u8, (c.len() >> 8) as u8, c.len() as u8];
+    v.extend_from_slice(c);
+    v
+}
+
+/// (name, encoding, member of the core set used for ordered pairs / triples)
+pub fn semantic_extensions() -> Vec<(&'static str, Vec<u8>, bool)> {
+    let key: Vec<u8> = (0..32u8).map(|i| i.wrapping_mul(7).wrapping_add(1)).collect();
+    let mut psk = vec![0x00, 0x0a, 0x00, 0x04, b't', b'i', b'c', b'k', 0, 0, 0, 0, 0x00, 0x21, 0x20];
+    psk.extend_from_slice(&key);
+    let mut ks_c = vec![0x00, 0x24, 0x00, 0x1d, 0x00, 0x20];
+    ks_c.extend_from_slice(&key);
+    let mut ks_s = vec![0x00, 0x1d, 0x00, 0x20];
+    ks_s.extend_from_slice(&key);
+    vec![
+        ("supported_versions client 1.3", ext_bytes(43, &[2, 3, 4]), true),
+        ("supported_versions client 1.3+1.2", ext_bytes(43, &[4, 3, 4, 3, 3]), false),
+        ("supported_versions client DTLS 1.3", ext_bytes(43, &[2, 0xfe, 0xfc]), true),
+        ("supported_versions client DTLS 1.3+1.2", ext_bytes(43, &[4, 0xfe, 0xfc, 0xfe, 0xfd]), false),
+        ("supported_versions server 1.3", ext_bytes(43, &[3, 4]), true),
+        ("psk_key_exchange_modes", ext_bytes(45, &[1, 1]), true),
+        ("pre_shared_key client", ext_bytes(41, &psk), true),
+        ("pre_shared_key server", ext_bytes(41, &[0, 0]), true),
+        ("key_share client", ext_bytes(51, &ks_c), true),
+        ("key_share server", ext_bytes(51, &ks_s), true),
+        ("key_share hrr", ext_bytes(51, &[0, 0x1d]), false),
+        ("early_data", ext_bytes(42, &[]), true),
+        ("cookie", ext_bytes(44, &[0, 3, 0xaa, 0xbb, 0xcc]), true),
+        ("renegotiation_info", ext_bytes(0xff01, &[0]), true),
+        ("session_ticket", ext_bytes(35, &[]), true),
+        ("extended_master_secret", ext_bytes(23, &[]), true),
+        ("encrypt_then_mac", ext_bytes(22, &[]), false),
+        ("server_name", ext_bytes(0, &[0, 9, 0, 0, 6, b'a', b'.', b'b', b'.', b'c', b'd']), false),
+        ("alpn", ext_bytes(16, &[0, 3, 2, b'h', b'2']), false),
+        ("supported_groups", ext_bytes(10, &[0, 4, 0, 0x1d, 0, 0x17]), false),
+        ("signature_algorithms", ext_bytes(13, &[0, 4, 4, 3, 8, 4]), false),
+        ("ec_point_formats", ext_bytes(11, &[1, 0]), false),
+        ("status_request", ext_bytes(5, &[1, 0, 0, 0, 0]), false),
+        ("sct", ext_bytes(18, &[]), false),
+        ("heartbeat", ext_bytes(15, &[1]), false),
+        ("padding", ext_bytes(21, &[0, 0, 0]), false),
+        ("record_size_limit", ext_bytes(28, &[0x40, 0x01]), false),
+    ]
+}
+
+/// extension blocks of whole hellos: TLS 1.3 browser-like ClientHello, the same resuming with a PSK,
+/// DTLS 1.3 ClientHello, TLS 1.2 ClientHello, TLS 1.3 / PSK / HelloRetryRequest / TLS 1.2 server blocks
+pub fn hello_profiles() -> Vec<Vec<u8>> {
+    let sem = semantic_extensions();
+    let get = |n: &str| -> Vec<u8> { sem.iter().find(|e| e.0 == n).unwrap_or_else(|| panic!("no extension {}", n)).1.clone() };
+    let cat = |names: &[&str]| -> Vec<u8> { names.iter().flat_map(|n| get(n)).collect() };
+    vec![
+        cat(&["server_name", "extended_master_secret", "renegotiation_info", "supported_groups", "ec_point_formats", "session_ticket", "alpn", "status_request", "signature_algorithms", "sct", "key_share client", "psk_key_exchange_modes", "supported_versions client 1.3+1.2", "padding"]),
+        cat(&["server_name", "extended_master_secret", "renegotiation_info", "supported_groups", "ec_point_formats", "session_ticket", "alpn", "status_request", "signature_algorithms", "key_share client", "psk_key_exchange_modes", "supported_versions client 1.3+1.2", "early_data", "pre_shared_key client"]),
+        cat(&["supported_versions client DTLS 1.3+1.2", "supported_groups", "signature_algorithms", "key_share client", "psk_key_exchange_modes", "cookie"]),
+        cat(&["supported_versions client DTLS 1.3", "key_share client", "psk_key_exchange_modes", "pre_shared_key client"]),
+        cat(&["server_name", "extended_master_secret", "renegotiation_info", "supported_groups", "ec_point_formats", "session_ticket", "signature_algorithms", "encrypt_then_mac", "heartbeat"]),
+        cat(&["supported_versions server 1.3", "key_share server"]),
+        cat(&["supported_versions server 1.3", "key_share server", "pre_shared_key server"]),
+        cat(&["supported_versions server 1.3", "pre_shared_key server"]),
+        cat(&["supported_versions server 1.3", "key_share hrr", "cookie"]),
+        cat(&["renegotiation_info", "extended_master_secret", "session_ticket", "alpn", "ec_point_formats", "status_request"]),
+        cat(&["supported_versions client 1.3", "psk_key_exchange_modes", "key_share client", "pre_shared_key client"]),
+    ]
 }
 
 /// ClientHello / ServerHello (every version form) / HelloRetryRequest / DTLS hellos whose extension
